@@ -50,6 +50,27 @@ var (
 var rep *lib.Report
 var knownList []lib.Known
 
+// descentDeviates: okTarget of the compared matcher rejects the target `$..` (asked of the driver once)
+var descentDeviates bool
+
+func askDescent() {
+	if *driver == "" {
+		return
+	}
+	d, err := lib.StartDriver(*driver)
+	if err != nil {
+		fmt.Fprintln(os.Stderr, "harness failure:", err)
+		os.Exit(3)
+	}
+	defer d.Close()
+	a, err := d.Ask1("ok\t" + *devArg + "\td")
+	if err != nil || (a != "t" && a != "f") {
+		fmt.Fprintln(os.Stderr, "harness failure: driver op ok:", a, err)
+		os.Exit(3)
+	}
+	descentDeviates = a == "f"
+}
+
 // chunkReader delivers the input in the given chunk lengths (the rest in one piece), then io.EOF
 // (copied from harness/cmd/json/impl.go).
 type chunkReader struct {
@@ -451,7 +472,7 @@ func judge(cr *caseRun, ans []string) {
 			outside = append(outside, tg)
 		}
 	}
-	feats := features(outside)
+	feats := features(outside, descentDeviates)
 	if len(outside) > 0 && len(feats) == 0 {
 		add("disagreement", "okTarget-vs-features", "a target is outside the theorem's hypothesis but shows none of the named constructs", cr.replayOf(nil))
 	}
@@ -490,7 +511,7 @@ func judge(cr *caseRun, ans []string) {
 	// specification lets a descent select the node itself everywhere. Where that is the whole
 	// difference, the specification's expectation is the reference.
 	descentQuirk := func(exp string) bool {
-		return spec != exp && features(c.Targets)["trailing-descent"] && onlyExtraScalars(spec, exp)
+		return spec != exp && features(c.Targets, true)["trailing-descent"] && onlyExtraScalars(spec, exp)
 	}
 	if cr.okOj && !dup && descentQuirk(cr.expOj) {
 		rep.Count("evaluator.descent-not-entered-at-scalar", 1)
@@ -688,6 +709,7 @@ func main() {
 	flag.Parse()
 	rep = lib.NewReport(*prop, *tier, *seed)
 	knownList = lib.LoadKnown(*known, *prop)
+	askDescent()
 	if *replay != "" {
 		runReplay()
 		return
